@@ -176,4 +176,4 @@ class CompactFilter:
                     f"can't read property '{key}'", token=None
                 ) from err
 
-        return [itm for itm in left if itm is not None]
+        return [itm for itm in left if itm is not None and not is_undefined(itm)]
